@@ -199,7 +199,7 @@ func (n *cnNet) buildGenesis() error {
 			SigningRewardThresholdNumerator:   1,
 			SigningRewardThresholdDenominator: 2,
 			RewardSchedule: []staking.RewardStep{
-				{Until: 1000, Scale: q(200000)}, // 0.2% per epoch (RewardAmountDenominator = 10^8)
+				{Until: 1000, Scale: q(2_000_000)}, // 2% per epoch (RewardAmountDenominator = 10^8)
 			},
 			CommissionScheduleRules: staking.CommissionScheduleRules{
 				RateChangeInterval: 1, RateBoundLead: 2, MaxRateSteps: 4, MaxBoundSteps: 4, MinCommissionRate: q(0),
@@ -208,14 +208,14 @@ func (n *cnNet) buildGenesis() error {
 		TokenSymbol: "VRF",
 		Ledger:      map[staking.Address]*staking.Account{},
 		Delegations: map[staking.Address]map[staking.Address]*staking.Delegation{},
-		CommonPool:  q(50_000),
+		CommonPool:  q(5_000),
 	}
-	total := uint64(50_000)
+	total := uint64(5_000)
 	for i := 0; i < cfg.Validators; i++ {
 		v := n.vals[i]
-		self := uint64(1000 + 300*i)
+		self := uint64(200 + 60*i)
 		stk.Ledger[v.entAddr] = &staking.Account{
-			General: staking.GeneralAccount{Balance: q(10_000)},
+			General: staking.GeneralAccount{Balance: q(1_000)},
 			Escrow: staking.EscrowAccount{
 				Active: staking.SharePool{Balance: q(self), TotalShares: q(self)},
 				CommissionSchedule: staking.CommissionSchedule{
@@ -225,11 +225,11 @@ func (n *cnNet) buildGenesis() error {
 			},
 		}
 		stk.Delegations[v.entAddr] = map[staking.Address]*staking.Delegation{v.entAddr: {Shares: q(self)}}
-		total += 10_000 + self
+		total += 1_000 + self
 	}
 	for _, u := range n.users {
-		stk.Ledger[u.addr] = &staking.Account{General: staking.GeneralAccount{Balance: q(20_000)}}
-		total += 20_000
+		stk.Ledger[u.addr] = &staking.Account{General: staking.GeneralAccount{Balance: q(2_000)}}
+		total += 2_000
 	}
 	stk.TotalSupply = q(total)
 
